@@ -338,6 +338,7 @@ class Context(MetadataContextMixin, object):
         self.store_to = None
 
         self._metadata = Metadata()
+        self.evaluation_cache = None  # cache used by the current evaluation (NoCache when an input value is injected)
         self.cwd_key=None
         self.evaluated_key=None
 
@@ -436,7 +437,8 @@ class Context(MetadataContextMixin, object):
         if self.raw_query is not None and self.enable_store_metadata:
             if force or self.can_report():
                 metadata = self.metadata()
-                self.cache().store_metadata(self.metadata())
+                cache = self.cache() if self.evaluation_cache is None else self.evaluation_cache
+                cache.store_metadata(self.metadata())
                 self.last_report_time = datetime.now()
                 if self.store_key is not None:
                     store = self.store() if self.store_to is None else self.store_to
@@ -1035,6 +1037,7 @@ class Context(MetadataContextMixin, object):
                 self.debug(f"Default cache {repr(cache)}")
 
         self.debug(f"Using cache {repr(cache)}")
+        self.evaluation_cache = cache
         self.debug(f"Try cache {query}")
         if (extra_parameters is None or len(extra_parameters)==0) and input_value is None and not input_value_specified:
             state = cache.get(query.encode())
@@ -1102,7 +1105,7 @@ class Context(MetadataContextMixin, object):
             state.metadata["filename"] = r.filename
             state.metadata["extension"] = ".".join(r.filename.split(".")[1:])
 
-        state = self.evaluate_action(state, r, extra_parameters=extra_parameters)
+        state = self.evaluate_action(state, r, extra_parameters=extra_parameters, cache=cache)
         state.query = query.encode()
         state.metadata["created"] = self.now()
 
